@@ -53,6 +53,8 @@ def random_opts(rng, spec):
     for k, p in (("check_canonical", 0.3), ("count_exons", 0.3), ("sqanti_output", 0.2), ("no_gzip", 0.2)):
         if rng.random() < p:
             o[k] = True
+    if rng.random() < 0.1:
+        o["ref_gz"] = True
     if rng.random() < 0.15:
         o["annotated"] = False
         o.pop("sqanti_output", None)
